@@ -112,6 +112,7 @@ INVARIANT C21_OnlyChainableChains
 INVARIANT C21_MessageNamesOrigin
 INVARIANT C21_DebugOnlyDiffersInPrint
 INVARIANT C21_LoggingKeepsBase
+INVARIANT C21_TestsSeparateDefinedFromUndefined
 """
 
 
@@ -419,6 +420,53 @@ def apply_path(u, path):
     return u
 
 
+CONTROL_VALUES = {"none": None, "zero": 0, "empty_str": "", "empty_list": [], "false": False, "one": 1, "text": "text",
+                  "object": Holder()}
+CONTROL_TEMPLATES = {
+    "defined": [("is", "{{ v is defined }}", {"true": "True", "false": "False"}),
+                ("if", "{% if v is defined %}T{% else %}F{% endif %}", {"true": "T", "false": "F"})],
+    "undefined": [("is", "{{ v is undefined }}", {"true": "True", "false": "False"}),
+                  ("is_not", "{{ v is not defined }}", {"true": "True", "false": "False"})],
+    "default": [("default", "{{ (v|default('dflt')) is sameas v }}", {"the_value": "True", "default_value": "False"}),
+                ("d", "{{ (v|d('dflt')) is sameas v }}", {"the_value": "True", "default_value": "False"})],
+    "default_bool": [("default", "{{ v|default('dflt', true) == 'dflt' }}|{{ (v|default('dflt', true)) is sameas v }}",
+                      {"the_value": "False|True", "default_value": "True|False"})],
+}
+
+
+def run_control(ck, W, case):
+    """Defined values through the defined / undefined tests and the default filter."""
+    v = CONTROL_VALUES[case["origin"]]
+    want = case["res"]["val"]
+    n = 0
+
+    def ok(got):
+        return {"true": got is True, "false": got is False, "the_value": got is v, "default_value": got == DEFAULT and got is not v}[want]
+
+    for via, fn in W.direct[case["op"]]:
+        try:
+            got = fn(v, None)
+        except Exception as e:  # noqa
+            got = e
+        n += 1
+        if not ok(got):
+            ck.violation(dict(case, via=via), f"defined value {v!r}: {case['op']}/{via} documented to give {want}, gave {got!r}",
+                         {"kind": "defined-control", "op": case["op"], "value": case["origin"]})
+    for via, src, tmap in CONTROL_TEMPLATES[case["op"]]:
+        for is_async in (False, True):
+            t = template(W, is_async, src)
+            try:
+                got = drive(t.render_async(v=v)) if is_async else t.render(v=v)
+            except Exception as e:  # noqa
+                got = repr(e)
+            n += 1
+            if got != tmap[want]:
+                ck.violation(dict(case, via=f"template:{via}", source=src),
+                             f"defined value {v!r}: {src} documented to show {want} ({tmap[want]!r}), rendered {got!r}",
+                             {"kind": "defined-control", "op": case["op"], "value": case["origin"]})
+    return n
+
+
 def run_direct(ck, W, case, only=None):
     n = 0
     for via, fn in W.direct[case["op"]]:
@@ -544,6 +592,13 @@ def run(ck):
     n_direct = n_tpl = 0
     before = len(ck.violations) + sum(h["count"] for h in ck.known_hits.values())
     for i, cs in enumerate(cases):
+        if len(ck.violations) > 200:
+            ck.extra["stopped_early"] = f"more than 200 violations after {i} of {len(cases)} cases"
+            break
+        if cs["base"] == "Defined":
+            for W in ws.values():
+                n_direct += run_control(ck, W, cs)
+            continue
         W = ws[(cs["base"], cs["logging"])]
         n_direct += run_direct(ck, W, cs)
         n_tpl += run_templates(ck, W, cs, False)
@@ -583,6 +638,11 @@ def run(ck):
 def replay(ck, rec):
     load_local_findings(ck)
     c = rec["case"]
+    if c["base"] == "Defined":
+        W = World("Undefined", False)
+        W.hint = "h"
+        run_control(ck, W, {k: v for k, v in c.items() if k not in ("via", "source")})
+        return
     W = World(c["base"], c["logging"])
     W.hint = c["res"]["msg"]["frag"] if c["origin"] == "hint" else "custom hint h1 for the missing thing"
     via = c.get("via", "")
